@@ -149,6 +149,10 @@ def st_step(draw, pos):
                 "loc": draw(st.sampled_from(["both", "both", "abs", "rel"])),
                 "idext": draw(st.booleans()),
                 "basin_first": draw(st.booleans()),
+                # documented forms of `basin_map`: integer array (any integer dtype)
+                # or the tuple (mapping feature name, array)
+                "mapform": draw(st.sampled_from(["u64", "u64", "i64", "i32", "u16",
+                                                 "tuple"])),
                 "internal": draw(st.one_of(st.none(), st.none(), st_internal())),
                 "seed": draw(st.integers(0, 999))}
     if op == "export":
@@ -547,8 +551,18 @@ class Run:
             hw.store_metadata(cfg)
             if not st_["basin_first"]:
                 store_features(hw, own)
+            mform = st_.get("mapform", "u64")
+            if bmap is None or mform == "u64":
+                marg = bmap
+            elif mform == "tuple":
+                marg = (f"basinmap{st_['seed'] % 10}", bmap)
+                rec.cls("ref:map-as-tuple")
+            else:
+                dt = {"i64": np.int64, "i32": np.int32, "u16": np.uint16}[mform]
+                marg = bmap.astype(dt)
+                rec.cls("ref:map-other-int-dtype")
             hw.store_basin(basin_name="b", basin_type="file", basin_format="hdf5",
-                           basin_locs=locs, basin_map=bmap, basin_feats=feats,
+                           basin_locs=locs, basin_map=marg, basin_feats=feats,
                            verify=verify)
             if verify:
                 stored = [str(src.path.resolve())]
